@@ -42,7 +42,7 @@ package itemsfetcher
 //@ func (*Fetcher).forgetHash
 //@   requires finv(f)
 //@   modifies f.announces.lru.items[id], f.announces.lru.weight, lel[f.announces.lru.evictList], llen[f.announces.lru.evictList], lidx[*], lown[*], nEvict, gEvictKey, gEvictVal, f.fetching[*]
-//@   at call simplewlru.Cache).Remove[1] modifies f.fetching[*]
+//@   at call wlru.Cache).Remove[1] modifies f.fetching[*]
 //@   ensures  finv(f) && !lhas(f.announces.lru, id) && len(f.announces.lru.items) <= old(len(f.announces.lru.items))
 //@
 //@ // rescheduleFetch: arms the timer if anything is pending; never disarms it
@@ -73,8 +73,8 @@ package itemsfetcher
 //@ func (*Fetcher).processNotification
 //@   requires finv(f) && fetchTimer != nil && notification.fetchItems != nil
 //@   modifies f.announces.lru.items[*], f.announces.lru.weight, lel[f.announces.lru.evictList], llen[f.announces.lru.evictList], lidx[*], lown[*], nEvict, gEvictKey, gEvictVal, all(simplewlru.entry).value, all(simplewlru.entry).weight, f.fetching[*], gTimerArmed[fetchTimer], allelems(announceData), gInterested
-//@   at call simplewlru.Cache).Add[1] modifies f.fetching[*]
-//@   at call simplewlru.Cache).Add[1] assumes cwsum(f.announces.lru) <= 9223372036854775807
+//@   at call wlru.Cache).Add[1] modifies f.fetching[*]
+//@   at call wlru.Cache).Add[1] assumes cwsum(f.announces.lru) <= 9223372036854775807
 //@   at call workers.Workers).Enqueue[1] requires [announced] fetchItems == cur(notification).fetchItems && forall(j, 0, len(hashes), exists(i, 0, len(gInterested), hashes[j] == gInterested[i]))
 //@   ensures  finv(f)
 //@   ensures  [armed] (old(pending(f)) ==> old(gTimerArmed[fetchTimer])) ==> (pending(f) ==> gTimerArmed[fetchTimer])
